@@ -140,7 +140,8 @@ ASSUMPTIONS = [
     "output.changed holds hashable scalars (as documented: a boolean) in the group_plots / _update_with_group cases",
 ]
 RULE = ("pair cases (a, b): intersection(a,b), intersection(b,a), intersection(a,a), difference(a,b), "
-        "update_recursively(intersection, difference) for every level in {-1,0,1,2,3}, update_recursively(copy(a), b), the "
+        "update_recursively(intersection, difference) for every level in {-1,0,1,2,3} (exhaustive scopes of the quick tier: "
+        "{-1,0,1,2}, the dictionaries there have depth <= 2), update_recursively(copy(a), b), the "
         "identity pattern (id()) of the results and, for update_recursively, of d and other afterwards plus the set of objects "
         "whose items changed; exhaustive: all pairs of dictionaries over keys {a,b} of depth <= 2 with one falsy and one truthy "
         "leaf chosen by the seed (quick: 144^2 pairs) or three leaves (thorough: 400^2 pairs), all pairs over keys {a,b,c} of "
@@ -295,6 +296,9 @@ def _gen(ctx, n_exh_leaves, n_pair, n_multi, n_nested, n_bad, n_ext):
     u3 = _universe(["a", "b", "c"], leaves3, 1)
     u1 = _universe(["a", "b"], [f, t], 1)
     deep_every = 6 if n_exh_leaves < 3 else 8
+    # (these dictionaries have depth <= 2: level 3 is level -1 there — `level_covers_*` — and is left to the sampled
+    # scopes in the quick tier)
+    exh_levels = [-1, 0, 1, 2] if n_exh_leaves < 3 else LEVELS
     seeds = [top.random() for _ in range(16)]
     ctx.exhaustive = False   # the sampled part is not an enumeration
     ctx.notes = [f"exhaustive pair scope: keys a,b depth<=2 leaves {leaves2!r} ({len(u2)}^2 pairs); keys a,b,c depth 1 leaves "
@@ -306,12 +310,12 @@ def _gen(ctx, n_exh_leaves, n_pair, n_multi, n_nested, n_bad, n_ext):
                 # ("paths": also compare the Lean path vocabulary untouchedL/getPath with the Python reference, the id()
                 # pattern of the results with the token model and the objects written by update_recursively with the write
                 # log; on a sixth / an eighth of the exhaustive scope and on every sampled pair)
-                yield {"op": "pair", "a": a, "b": b, "levels": LEVELS, "paths": (i + j) % deep_every == 0}
+                yield {"op": "pair", "a": a, "b": b, "levels": exh_levels, "paths": (i + j) % deep_every == 0}
 
     def exh_small():
         for a in u3:
             for b in u3:
-                yield {"op": "pair", "a": a, "b": b, "levels": LEVELS}
+                yield {"op": "pair", "a": a, "b": b, "levels": exh_levels}
         for a in u1:
             for b in u1:
                 for c in u1:
